@@ -64,12 +64,12 @@ Definition C12_accept_stmt : Prop :=
   forall d uord tord,
     load d = LOk (uord, tord) ->
     let k := d_core d in
-    core_ok k (d_globals d) [] uord tord
-    /\ (exists ks, pk (kinds_fuel k) (k_utils k) (k_rule k) = Some ks)
+    core_ok k (global_names d) [] uord tord
+    /\ (exists ks, pkg (kinds_fuel k) (k_utils k) (d_globals d) (k_rule k) = Some ks)
     /\ (let rws := doc_rewriters d in
           (forall id k', In (id, k') rws ->
              k_fix k' <> None
-             /\ exists uo to, core_ok k' (d_globals d) (core_defined_vars k) uo to)
+             /\ exists uo to, core_ok k' (global_names d) (core_defined_vars k) uo to)
           /\ (forall id, In id (used_rewriters k) -> In id (map fst rws))
           /\ (forall id0 k' id, In (id0, k') rws -> In id (used_rewriters k') -> In id (map fst rws))).
 
